@@ -87,3 +87,15 @@ for rd, nm in [(1, 'zt'), (2, 'bounded')]:
         desc='skipQuotedString through the %s reader' % ('zero-terminated' if rd == 1 else 'bounded'), bound='either quote + all strings of 4 bytes'))
 OBS.append(Ob(['C03', 'C17'], 'pqs_u6_twice', 'jd', 'harness/jd_str.c', 'h_pqs_twice', defs=U + ['NB=7', 'PREFIX_U=1'], unwind=10, lunwind=PQS1, fs='none', cap=400, hunwind=40,
     desc='parseQuotedString run twice on the same input (quote + \\\\u + 5 free bytes): identical code, length and decoded bytes - no dependence on uninitialised state, lone surrogates included', bound='all 2^40 continuations of "\\\\u'))
+# ---- parseVariant / skipVariant dispatch: every routine below is cut; which one runs, with which limit, on which bytes
+JV = r'JsonDeserializerI7VReaderE'
+UNITS += [Unit('jd_var', 'wrappers/jd.cpp', defs=SM, cuts={
+    'CUT_PA_ALL': JV + r'10parseArrayINS1_14AllowAllFilterE', 'CUT_PA_F': JV + r'10parseArrayINS0_21DeserializationOption6FilterE',
+    'CUT_PO_ALL': JV + r'11parseObjectINS1_14AllowAllFilterE', 'CUT_PO_F': JV + r'11parseObjectINS0_21DeserializationOption6FilterE',
+    'CUT_SA': JV + r'9skipArrayE', 'CUT_SO': JV + r'10skipObjectE', 'CUT_PSV': JV + r'16parseStringValueE', 'CUT_SQS': JV + r'16skipQuotedStringEv',
+    'CUT_SKW': JV + r'11skipKeywordEPKc', 'CUT_PNV': JV + r'17parseNumericValueE', 'CUT_SNV': JV + r'16skipNumericValueEv'})]
+VD = dict(unit='jd_var', harness='harness/jd_var.c', entry='h_variant_dispatch', unwind=5, fs='none', cap=300, hunwind=8)
+OBS.append(Ob(['C01', 'C10', 'C15', 'C16', 'C03'], 'variant_dispatch_all', defs=['UNIT_H="jd_var.h"', 'MODE=0'], desc='parseVariant<AllowAll>: after blanks the first byte selects exactly one routine (array/object/string/keyword/number), run once on the unconsumed byte with the caller limit; its code is the code; true/false stored', bound='all 2-byte inputs, all limits, every result code of the routine', **VD))
+OBS.append(Ob(['C11', 'C16', 'C03'], 'variant_dispatch_skip', defs=['UNIT_H="jd_var.h"', 'MODE=2'], desc='skipVariant: same selection among the skipping routines', bound='all 2-byte inputs, all limits, every result code', **VD))
+for fs_, nm in [(0, 'true'), (1, 'false'), (2, '[true]'), (3, '[false]'), (4, '[]'), (5, '{}')]:
+    OBS.append(Ob(['C11', 'C15', 'C03'], 'variant_dispatch_filter_%d' % fs_, defs=['UNIT_H="jd_var.h"', 'MODE=1', 'FSHAPE=%d' % fs_], desc='parseVariant<Filter> under the filter %s: parsing routine iff the filter admits that kind, else the skipping twin and a null destination; true/false stored iff scalars admitted' % nm, bound='all 2-byte inputs, all limits, every result code', **VD))
